@@ -641,7 +641,7 @@ pub fn run(r: &mut Runner, level: &str, profile: &str, seed: u64, count: u64, ti
     if level == "conn" && profile == "C18" {
         unread_close(r);
     }
-    if level == "conn" && matches!(profile, "C09" | "C13" | "C18") {
+    if level == "conn" && matches!(profile, "C09" | "C13" | "C18" | "C12") {
         stalled_oversized(r);
     }
     r.finish();
@@ -953,7 +953,7 @@ pub fn stalled_oversized(r: &mut Runner) {
     let answered_inner = wire::split_resps(&got).ok().map_or(false, |fr| fr.iter().any(|b| wire::parse_resp(b).map_or(false, |x| x.opaque == 0x66 || x.opaque == 0x67)));
     if injected || answered_inner {
         let prog = r.prog_start.len().saturating_sub(1);
-        r.violations.push((prog, vec!["C09", "C13", "C18"], start, format!(
+        r.violations.push((prog, vec!["C09", "C13", "C18", "C12"], start, format!(
             "bytes of an oversized request's body were executed as requests after its sender had stalled past the idle timeout: {} (responses received: {})",
             if injected { "the key 'injected' is stored" } else { "a request inside the body was answered" }, hex(&got[..got.len().min(96)]))));
     }
